@@ -10,7 +10,7 @@
 (* per subset.  Concrete tags and reference kinds are rotated over the      *)
 (* tables of Filter.tla (Salt shifts the rotation).                         *)
 EXTENDS Filter, TLC, Json
-CONSTANTS MaxN, MaxUnits, MaxEdges, MaxEdgesBig, Salt, EmitMod, CheckSplit, KindN, FewSubsets
+CONSTANTS MaxN, MaxUnits, MaxEdges, MaxEdgesBig, Salt, EmitMod, CheckSplit, KindN, FewSubsets, RootEdges
 VARIABLE g
 
 Classes == {"ns", "noback", "back"}
@@ -74,20 +74,26 @@ TagStep == /\ g.phase = "tags"
               \E c \in ClassChoices(g, e) :
                 g' = [g EXCEPT !.class = Append(@, c),
                                !.phase = IF e = g.n THEN "edges" ELSE "tags"]
-(* kinds that can encode an edge f -> t *)
+(* kinds that can encode an edge f -> t (f < 0: held by the root of unit -f) *)
 KindsFor(s, f, t) ==
-    IF t = 0 THEN <<"attr_unit">> \o InfoKinds
+    IF f < 0 THEN
+        IF t = 0 THEN <<"attr_info">>
+        ELSE LET tu == IF t < 0 THEN -t ELSE s.unit[t] IN
+             IF tu # -f THEN <<"attr_info", "x_callref", "l_callref">>
+             ELSE <<"attr_unit", "attr_info", "x_callref", "l_callref", "x_call">>
+    ELSE IF t = 0 THEN <<"attr_unit">> \o InfoKinds
     ELSE LET tu == IF t < 0 THEN -t ELSE s.unit[t] IN
          IF tu # s.unit[f] THEN InfoKinds
          ELSE IF t < f THEN TypedKinds \o AllKinds  \* the target precedes the source: typed operations possible
          ELSE InfoKinds \o UnitKinds
 (* edges are added in increasing index order, so each set is built once *)
 NTargets(s) == s.n + s.nunits + 1
-EdgeIndex(s, f, t) == (f - 1) * NTargets(s) + (t + s.nunits)
+EdgeIndex(s, f, t) == (f + s.nunits) * NTargets(s) + (t + s.nunits)
 EdgeBound(s) == IF s.n >= MaxN /\ MaxN > 3 THEN MaxEdgesBig ELSE MaxEdges
 EdgeStep == /\ g.phase = "edges" /\ Len(g.edges) < EdgeBound(g) /\ ~g.solo
-            /\ \E f \in 1..g.n : \E t \in (-g.nunits)..g.n :
+            /\ \E f \in ((-g.nunits)..(-1)) \cup (1..g.n) : \E t \in (-g.nunits)..g.n :
                  /\ EdgeIndex(g, f, t) > g.last
+                 /\ (f < 0 => Len(g.edges) = 0 /\ RootEdges /\ t >= 0)     \* at most one reference held by a root
                  /\ \/ g' = [g EXCEPT !.edges = Append(@, <<f, t, "">>), !.last = EdgeIndex(g, f, t)]
                     (* single-edge graphs over few entries: every kind that can encode the edge *)
                     \/ /\ Len(g.edges) = 0 /\ g.n <= KindN
@@ -120,7 +126,8 @@ Subsets(k) == IF k = 0 THEN <<{}>>
 Without(G, i) == [G EXCEPT !.refs = SubSeq(G.refs, 1, i - 1) \o SubSeq(G.refs, i + 1, Len(G.refs))]
 Decisive(G) == {G.refs[i].kind : i \in {j \in DOMAIN G.refs :
                    /\ G.refs[j].to \in 1..G.n
-                   /\ G.refs[j].to \notin LfpF(NeedsFn(Without(G, j)), {G.refs[j].from})}}
+                   /\ G.refs[j].to \notin LfpF(NeedsFn(Without(G, j)),
+                                               IF G.refs[j].from < 0 THEN RootTargets(Without(G, j)) ELSE {G.refs[j].from})}}
 (* tags whose classification decides a result: a member-like child that is   *)
 (* retained only as a member of its parent, or a stand-alone child that is    *)
 (* not in the closure of its parent                                          *)
@@ -145,7 +152,7 @@ Case(G, subs, res, nd, must1) ==
      entries |-> [e \in 1..G.n |-> [id |-> e, unit |-> G.unit[e], parent |-> G.parent[e],
                                    tag |-> G.tag[e], decl |-> G.decl[e]]],
      refs |-> G.refs,
-     invalid |-> {e \in 1..G.n : HasInvalidRef(G, e)},
+     invalid |-> {e \in 1..G.n : HasInvalidRef(G, e)}, rootinvalid |-> RootInvalid(G),
      exp |-> [k \in DOMAIN subs |-> [req |-> subs[k], must |-> res[k].M, may |-> res[k].Y]],
      decisive |-> Decisive(G), dtags |-> DecisiveTags(G, nd, must1)]
 
@@ -161,8 +168,8 @@ Inv == g.phase = "final" =>
            may1 == [e \in 1..G.n |-> LfpF(lk, {e})]
            m0 == TraverseAll(G)
            res == [k \in DOMAIN subs |-> [w |-> GRRun(GRInit(WithRequired(m0, G, subs[k]))),
-                                          M |-> UNION {must1[e] : e \in subs[k]},
-                                          Y |-> UNION {may1[e] : e \in subs[k]}]] IN
+                                          M |-> UNION {must1[e] : e \in subs[k] \cup RootTargets(G)},
+                                          Y |-> UNION {may1[e] : e \in subs[k] \cup RootTargets(G)}]] IN
        /\ WellFormed(G)
        /\ \A k \in DOMAIN subs : /\ ResultOkWith(G, subs[k], res[k].w, res[k].M, res[k].Y, nd)
                                  /\ AllowedWith(nd, res[k].M, res[k].Y, Range(res[k].w.reachable))
